@@ -258,7 +258,16 @@ def seePositional (m : M) (v : Tok) : Except Err M :=
         | .error (.other "ValueError" _) => .error (.parse "invalid-value" v)
         | .error e => .error e
 
-/-- ParseMachine.handle: dispatch order flag > inverse > pending value > positional > context > core flag > unknown -/
+/-- `is_core_flag_in_task_context`: the token is a flag of the core context and the current context is a task's -/
+def coreFlagInTask (m : M) (tok : Tok) : Bool :=
+  !m.curIsInitial && (match m.initial with | some ic => (assoc? tok ic.flags).isSome | none => false)
+
+/-- the pending flag's value is optional -/
+def optionalPending (m : M) : Bool :=
+  match m.flagArg with | some a => a.spec.optional | none => false
+
+/-- ParseMachine.handle: dispatch order flag > inverse > pending value (unless optional and the token is a core flag)
+    > positional > context > core flag > unknown -/
 def handle (m : M) (tok : Tok) : Except Err M :=
   if m.st = .unknown then seeUnknown m tok
   else
@@ -266,7 +275,7 @@ def handle (m : M) (tok : Tok) : Except Err M :=
     let inInv := match m.ctx with | some c => (assoc? tok c.inverse).isSome | none => false
     if inFlags then switchToFlag m tok
     else if inInv then switchToFlag m tok (inverse := true)
-    else if m.waiting then seeValue m tok
+    else if m.waiting && !(optionalPending m && coreFlagInTask m tok) then seeValue m tok
     else if (match m.ctx with | some c => !c.missingPositional.isEmpty | none => false) &&
             !(!m.curIsInitial && (match m.initial with | some ic => (assoc? tok ic.flags).isSome | none => false)) then seePositional m tok
     else if (m.lookupCtx tok).isSome then switchToContext m tok
@@ -331,7 +340,7 @@ def presplit (m : M) (orig : Tok) : Except Err (Tok × List Tok) :=
 /-- with a value pending, the split is kept only if the flag's value is optional and the sub-token is a flag of the context -/
 def keepSplit (m : M) (tok : Tok) : Bool :=
   (match m.flagArg with | some a => a.spec.optional | none => false) &&
-  (match m.ctx with | some c => (assoc? tok c.flags).isSome | none => false)
+  ((match m.ctx with | some c => (assoc? tok c.flags).isSome | none => false) || M.coreFlagInTask m tok)
 
 /-- rollback when a value is pending -/
 def rollback (m : M) (orig : Tok) (p : Tok × List Tok) : Tok × List Tok :=
